@@ -167,6 +167,13 @@ def _rewrite_body(text, rw):
         rw.hit('W6.drain_front_stmt')
         return f'{mm.group(1)}vd_drain_front(&mut {mm.group(2)}, {mm.group(3)});'
     text = re.sub(r'(?m)^([ \t]*)let _ = ([\w.]+)\.drain\(\.\.([^)]+)\);', w6, text)
+    # W6b: statement `X.drain(a..b);` / `X.drain(a..=b);` (iterator dropped at once) -> trusted wrapper
+    # `vd_drain_range(&mut X, a, b)` (defined, with std's documented effect, in the template that needs it)
+    def w6r(mm):
+        rw.hit('W6.drain_range_stmt')
+        a, incl, b = mm.group(3).strip(), mm.group(4), mm.group(5).strip()
+        return f'{mm.group(1)}vd_drain_range(&mut {mm.group(2)}, {a}, {"(" + b + ") + 1" if incl else b});'
+    text = re.sub(r'(?m)^([ \t]*)([\w.]+)\.drain\(([^.()]+?)\.\.(=?)([^=.()][^.()]*)\);', w6r, text)
     return text
 
 
